@@ -102,6 +102,7 @@ func (s *Sched) Go(name string, f func()) {
 			delete(s.names, id)
 			s.mu.Unlock()
 		}()
+		s.Gate("start") // the scheduler, not the Go runtime, decides which new thread runs first
 		f()
 	}()
 }
